@@ -134,6 +134,25 @@ CONTROLS = [
         rep(XS, "// Custom Debug implementation that does not expose the internal state\n", "impl Clone for XorShiftRng {\n    fn clone(&self) -> Self {\n        XorShiftRng { x: self.x, y: self.y, z: self.z, w: self.w }\n    }\n}\n\n// Custom Debug implementation that does not expose the internal state\n")), ["C10", "C19", "C14", "C11"]),
     ("silent", "S2 XorShiftRng Debug via debug_struct", rep(XS, "        write!(f, \"XorShiftRng {{}}\")", "        f.debug_struct(\"XorShiftRng\").finish()"), ["C17", "C14"]),
     ("silent", "S2 JitterRng Debug via write_str", rep(J, "        write!(f, \"JitterRng {{}}\")", "        f.write_str(\"JitterRng {}\")"), ["C17", "C14"]),
+    ("silent", "S2 jitter pending half kept as Option<u32>", seq(
+        rep(J, "    data_half_used: bool,", "    data_half: Option<u32>,"),
+        rep(J, "            data_half_used: false,", "            data_half: None,", 2),
+        rep(J, "        if self.data_half_used {\n            self.data_half_used = false;\n            (self.data >> 32) as u32\n        } else {\n            self.data = self.next_u64();\n            self.data_half_used = true;\n            self.data as u32\n        }",
+            "        if let Some(half) = self.data_half.take() {\n            half\n        } else {\n            self.data = self.next_u64();\n            self.data_half = Some((self.data >> 32) as u32);\n            self.data as u32\n        }"),
+        rep(J, "        self.data_half_used = false;\n        self.gen_entropy()", "        self.data_half = None;\n        self.gen_entropy()")), ["C16", "C05", "C12", "C14", "C15", "C18", "C19"]),
+    ("fire", "S2f Option<u32> half: clone keeps the original's half", seq(
+        rep(J, "    data_half_used: bool,", "    data_half: Option<u32>,"),
+        rep(J, "            data_half_used: false,", "            data_half: self.data_half,", 1),
+        rep(J, "            data_half_used: false,", "            data_half: None,", 1),
+        rep(J, "        if self.data_half_used {\n            self.data_half_used = false;\n            (self.data >> 32) as u32\n        } else {\n            self.data = self.next_u64();\n            self.data_half_used = true;\n            self.data as u32\n        }",
+            "        if let Some(half) = self.data_half.take() {\n            half\n        } else {\n            self.data = self.next_u64();\n            self.data_half = Some((self.data >> 32) as u32);\n            self.data as u32\n        }"),
+        rep(J, "        self.data_half_used = false;\n        self.gen_entropy()", "        self.data_half = None;\n        self.gen_entropy()")), ["C16"]),
+    ("fire", "S2f Option<u32> half: next_u64 keeps a pending half", seq(
+        rep(J, "    data_half_used: bool,", "    data_half: Option<u32>,"),
+        rep(J, "            data_half_used: false,", "            data_half: None,", 2),
+        rep(J, "        if self.data_half_used {\n            self.data_half_used = false;\n            (self.data >> 32) as u32\n        } else {\n            self.data = self.next_u64();\n            self.data_half_used = true;\n            self.data as u32\n        }",
+            "        if let Some(half) = self.data_half.take() {\n            half\n        } else {\n            let v = self.gen_entropy();\n            self.data = v;\n            self.data_half = Some((v >> 32) as u32);\n            v as u32\n        }"),
+        rep(J, "        self.data_half_used = false;\n        self.gen_entropy()", "        self.gen_entropy()")), ["C16"]),
     ("silent", "S2 xoshiro256++ state accessor added", rep(X + "xoshiro256plusplus.rs", "impl Xoshiro256PlusPlus {\n", "impl Xoshiro256PlusPlus {\n    /// Number of state words.\n    pub fn state_words(&self) -> usize {\n        self.s.len()\n    }\n\n"), ["C14", "C19", "C18", "C10"]),
 ]
 
